@@ -341,10 +341,15 @@ func TestVerif_C17_DB(t *testing.T) {
 				}
 				continue
 			}
-			resp, _ := d.Request(req, false)
+			resp, rerr := d.Request(req, false)
 			after, err := c17Snap(d.Path(), afterDir)
 			if err != nil {
 				rt.Skip(err)
+			}
+			if rerr != nil {
+				// whole-request error (e.g. commit failed after an explicit COMMIT in the text): C13's business
+				rec.Label("request:error-not-judged")
+				continue
 			}
 			ok, sig, msg, labels := c17Judge(texts, resp, before, after, snapDir)
 			for _, l := range labels {
@@ -442,10 +447,11 @@ func TestVerif_C17_Store(t *testing.T) {
 				continue
 			}
 			if rerr != nil {
-				rec.Label("request:error")
-				// refused as a whole: nothing may have changed
-				resp = nil
-				texts = nil
+				// The request as a whole returned an error (e.g. an explicit COMMIT inside a
+				// transactional request): the per-statement answers are not available, so what
+				// was treated as read-only is unknown. Error semantics belong to C13; not judged.
+				rec.Label("request:error-not-judged")
+				continue
 			}
 			ok, sig, msg, labels := c17Judge(texts, resp, before, after, snapDir)
 			for _, l := range labels {
